@@ -29,6 +29,9 @@ def split(t):
 def nequal(a, b, t, path, diffs):
     opt, base = split(t)
     aa, ab = absent(a, opt, base), absent(b, opt, base)
+    if opt and (base is str or dataclasses.is_dataclass(base)) and a is None and b is not None:
+        diffs.append(f"{path}: None -> {b!r} (only the omission of an empty string / empty details object is allowed, not the reverse)")
+        return
     if aa or ab:
         if aa != ab:
             diffs.append(f"{path}: {a!r} -> {b!r}")
